@@ -74,6 +74,112 @@ def scenarios(uni, tier):
     return S
 
 
+def link_scenarios(copia, shim, work, vd, ev):
+    """Versions that are SYMBOLIC LINKS (delivered by symlink + rename at the staging name, not by a byte copy), judged directly by the
+    last clause of C08: killed before each mutating call, then re-run (up to 4 times while a run stops on a leftover staging name),
+    every non-staging path on both sides is what an uninterrupted run produces.  Outside BisyncCrash's call vocabulary, so no
+    replay through the model: the oracle is the uninterrupted run of the same state."""
+    import subprocess
+    bc.SHIM, bc.COPIA = shim, copia
+    B1, B2 = b"one\n" * 700, b"two, longer\n" * 900
+
+    def snap(root):
+        out = {}
+        for dp, dn, fn in os.walk(root):
+            for f in fn + [x for x in dn if os.path.islink(os.path.join(dp, x))]:
+                p = os.path.join(dp, f)
+                rel = os.path.relpath(p, root)
+                if rel.endswith(bc.STG):
+                    continue
+                out[rel] = ("L", os.readlink(p)) if os.path.islink(p) else ("F", open(p, "rb").read().hex()[:64], os.path.getsize(p))
+        return out
+
+    def save(d):
+        out = {}
+        for dp, dn, fn in os.walk(d):
+            for x in dn:
+                if not os.path.islink(os.path.join(dp, x)):
+                    out[os.path.relpath(os.path.join(dp, x), d)] = ("D",)
+            for f in fn + [x for x in dn if os.path.islink(os.path.join(dp, x))]:
+                p = os.path.join(dp, f)
+                out[os.path.relpath(p, d)] = ("L", os.readlink(p)) if os.path.islink(p) else ("F", open(p, "rb").read())
+        return out
+
+    def restore(d, sv):
+        shutil.rmtree(d, ignore_errors=True)
+        os.makedirs(d)
+        for rel, v in sorted(sv.items()):
+            p = os.path.join(d, rel)
+            os.makedirs(os.path.dirname(p), exist_ok=True)
+            if v[0] == "D":
+                os.makedirs(p, exist_ok=True)
+            elif v[0] == "L":
+                os.symlink(v[1], p)
+            else:
+                with open(p, "wb") as f:
+                    f.write(v[1])
+
+    def w(path, data):
+        os.makedirs(os.path.dirname(path), exist_ok=True)
+        with open(path, "wb") as f:
+            f.write(data)
+
+    def mk(name, base, edit):
+        return {"name": name, "base": base, "edit": edit}
+    scs = [
+        mk("a link created on A", lambda A, B: (w(A + "/t1", B1), w(B + "/t1", B1)), lambda A, B: os.symlink("t1", A + "/cur")),
+        mk("a link re-pointed on B", lambda A, B: [(w(r + "/t1", B1), w(r + "/t2", B2), os.symlink("t1", r + "/cur")) for r in (A, B)],
+           lambda A, B: (os.unlink(B + "/cur"), os.symlink("t2", B + "/cur"))),
+        mk("link against link, first run", None, lambda A, B: (w(A + "/t1", B1), w(B + "/t1", B1), os.symlink("t1", A + "/cur"), os.symlink("./t1", B + "/cur"))),
+        mk("link against file, base present", lambda A, B: (w(A + "/cur", B1), w(B + "/cur", B1)),
+           lambda A, B: (os.unlink(A + "/cur"), os.symlink("nowhere", A + "/cur"), w(B + "/cur", B2))),
+        mk("a link in a new sub-directory and a file next to it", None, lambda A, B: (w(A + "/sub/t", B2), os.symlink("t", A + "/sub/l"), w(B + "/other", B1))),
+    ]
+    nrec = 0
+    for si, sc in enumerate(scs):
+        d = os.path.join(work, f"lk{si}")
+        A, B, home = (os.path.join(d, x) for x in ("A", "B", "home"))
+        for x in (A, B, home):
+            os.makedirs(x)
+        plain = bg._env(home)
+
+        def bisync(env):
+            return subprocess.run([copia, "bisync", A, B], env=env, stdout=subprocess.PIPE, stderr=subprocess.PIPE, timeout=60)
+        if sc["base"]:
+            sc["base"](A, B)
+            bisync(plain)
+        sc["edit"](A, B)
+        pre = {x: save(os.path.join(d, x)) for x in ("A", "B", "home")}
+        logf = os.path.join(d, "log")
+        open(logf, "w").close()
+        p0 = bisync(bc._env(home, d, log=logf))
+        n_mut = sum(1 for x in open(logf) if json.loads(x)["mut"])
+        want = {"A": snap(A), "B": snap(B)}
+        if p0.returncode not in (0, 1) or n_mut == 0:
+            raise vlib.ToolError(f"link scenario '{sc['name']}': the uninterrupted run failed ({p0.returncode}): {p0.stderr[-200:]}")
+        for k in range(1, n_mut + 1):
+            for x in ("A", "B", "home"):
+                restore(os.path.join(d, x), pre[x])
+            pk = bisync(bc._env(home, d, log=logf, kill=k))
+            exits = [pk.returncode]
+            for attempt in range(4):
+                q = bisync(plain)
+                exits.append(q.returncode)
+                if q.returncode == 0 or (q.returncode == 1 and b"had conflicts" in q.stderr):
+                    break
+            got = {"A": snap(A), "B": snap(B)}
+            nrec += 1
+            if got != want or exits[-1] not in (0, 1):
+                diff = {side: {n: (got[side].get(n), want[side].get(n)) for n in set(got[side]) | set(want[side]) if got[side].get(n) != want[side].get(n)} for side in ("A", "B")}
+                vd.violation(f"link-s{si}-k{k}", f"scenario '{sc['name']}' (a version that is a symbolic link), killed before mutating call {k}/{n_mut}: after the re-runs "
+                             f"(exits {exits}) the pair is not in the state of an uninterrupted run; differing paths (got, want): {str(diff)[:400]}; last stderr: {q.stderr.decode('utf8', 'replace')[-160:]}",
+                             {"kind": "bisync-crash-link", "scenario": sc["name"], "k": k, "exits": exits, "diff": str(diff)})
+        shutil.rmtree(d, ignore_errors=True)
+    ev.extra["link_scenarios"] = {"scenarios": len(scs), "kill_points": nrec}
+    ev.add(evaluations=nrec, traces_validated_against_impl=nrec)
+    return nrec
+
+
 def run(tier):
     pid = "C08"
     ev = Evidence(pid, tier, "fault_enumeration")
@@ -136,6 +242,8 @@ def run(tier):
                     if nonconf <= 3:
                         e = recs[off + ln - 1]
                         vd.nonconformance(f"scenario '{e['scenario']}' k={e['k']}: replay of the logged calls through BisyncCrash!Exec does not give the observed snapshot / program")
+        nl = link_scenarios(copia, shim, os.path.join(work, "links"), vd, ev)
+        log(f"[C08] link scenarios: {nl} kill points")
         ev.extra["conformance"] = {"records": len(recs), "mismatched": nonconf}
         ev.add(evaluations=len(recs), distinct_nontrivial=sum(1 for e in recs if e["k"] > 0),
                traces_validated_against_impl=len(recs),
